@@ -376,3 +376,47 @@ def d8_7(ctx):
                               names=sorted({p[0].id for p in probs}))
             else:
                 ctx.ok(key, m, "every name read in a handler is bound on all paths into it")
+
+
+# raw operations on a decoder's input stream outside the checked primitive, each with the reason it cannot hand out a
+# fixed-width value made from fewer bytes (keyed by class / function and the source of the call, never by line)
+ACCEPTED_RAW_STREAM_OPS = {
+    ("DataType._stream_read", "stream.read(size)"): "the checked primitive itself: empty -> BufferEmptyError, short -> DataError",
+    ("STRINGI.decode", "stream.read(3)"): "the 3 bytes are re-decoded as a SHORT_STRING of declared length 3, which checks the length",
+    ("STRINGI.decode", "stream.read(1)"): "indexed with [0]: an empty result raises inside the contained decoder",
+    ("StructTag.StructTag._decode", "stream.read(offset - stream.tell())"): "skips a gap inside the private copy of the structure image, which _stream_read(size) has already length-checked",
+}
+ADVANCING = ("read", "seek", "readinto", "read1", "readline", "truncate", "write")
+
+
+@rule(P, "D8.9", "T-WHO", floor=3)
+def d8_9(ctx):
+    """Who may advance a decoder's input: inside the codec classes of the anchored files only `_stream_read` (which turns an
+    empty read into BufferEmptyError and a short one into DataError), a nested `T.decode(stream)` and the enumerated raw
+    reads may move the stream; a `seek` / raw `read` anywhere else can step over or hand out bytes that are not there, i.e.
+    produce a value from fewer bytes than its width without any error."""
+    files = ("pycomm3/cip/data_types.py", "pycomm3/custom_types.py")
+    n_ok = 0
+    seen = set()
+    for key, fi in sorted(ctx.model.functions.items()):
+        rel = fi.module.relpath.replace("\\", "/")
+        if rel not in files or fi.cls is None and "." not in fi.qualname:
+            continue
+        q = fi.qualname
+        for c in walk(fi.node):
+            if not (isinstance(c, ast.Call) and isinstance(c.func, ast.Attribute) and c.func.attr in ADVANCING):
+                continue
+            recv = c.func.value
+            if not (isinstance(recv, ast.Name) and recv.id in ("stream", "buffer", "_stream", "data_stream")):
+                continue
+            k = (q, src(c))
+            seen.add(k)
+            if k in ACCEPTED_RAW_STREAM_OPS:
+                n_ok += 1
+                ctx.ok(ckey(fi, f"raw-stream:{src(c)}"), c, f"accepted raw stream operation: {ACCEPTED_RAW_STREAM_OPS[k]}")
+            else:
+                ctx.violation(ckey(fi, f"raw-stream:{src(c)}"), c, f"`{src(c)}` in {q} moves the decoder's input outside `_stream_read`: bytes that are not there are skipped or handed out without BufferEmptyError / DataError "
+                                                                     f"(a fixed-width value can be produced from fewer bytes than its width)")
+    gone = [k for k in ACCEPTED_RAW_STREAM_OPS if k not in seen]
+    # a vanished accepted instance is not an error (the code may have been tightened); it is reported in the facts
+    ctx.ok(ckey(f"{DT}:DataType", "raw-stream-census"), None, f"{n_ok} raw stream operation(s), all enumerated", no_longer_present=[f"{a}: {b}" for a, b in gone])
